@@ -153,7 +153,7 @@ def h_duration(env):
         env.check("oracle:reference-seconds-nanos", (r.seconds, r.nanos) == (want_s, want_n))
         ref = shapes.build_ref(cat)
         rm = ref["M"].FromString(data)
-        env.check("oracle:reference-decodes-same-span", rm.d.ToTimedelta() == td)
+        env.check("witness:reference-decodes-same-span", rm.d.ToTimedelta() == td)
         import re
 
         text = m.to_dict().get("d", "0s")
@@ -208,7 +208,7 @@ def h_timestamp(env):
         env.check("oracle:reference-seconds-nanos", (r.seconds, r.nanos) == (want_s, want_us * 1000))
         ref = shapes.build_ref(cat)
         rm = ref["M"].FromString(data)
-        env.check("oracle:reference-decodes-same-instant", rm.t.ToDatetime(tzinfo=_dt.timezone.utc) == dt)
+        env.check("witness:reference-decodes-same-instant", rm.t.ToDatetime(tzinfo=_dt.timezone.utc) == dt)
         text = m.to_dict().get("t", "1970-01-01T00:00:00Z")
         r2 = timestamp_pb2.Timestamp()
         try:
